@@ -53,13 +53,16 @@ var routedProtos = []proto{
 }
 
 type routedCase struct {
-	Order  []int // indices into routedProtos, in route order
-	PreAt  int   // position of the stream-changing route in the list (-1: none)
-	Pre    string
-	Header []byte
-	Msg    []byte
-	From   string
-	Splits [][]int
+	Order []int // indices into routedProtos, in route order
+	// Alt[i] >= 0: route i has a second, OR'ed matcher set with that protocol's matcher; AltFirst[i]: it is listed first
+	Alt      []int
+	AltFirst []bool
+	PreAt    int // position of the stream-changing route in the list (-1: none)
+	Pre      string
+	Header   []byte
+	Msg      []byte
+	From     string
+	Splits   [][]int
 }
 
 func genHeader(t *rapid.T) []byte {
@@ -94,7 +97,18 @@ func genHeader(t *rapid.T) []byte {
 func genRouted(t *rapid.T) routedCase {
 	var rc routedCase
 	n := rapid.IntRange(3, len(routedProtos)).Draw(t, "nroutes")
-	rc.Order = rapid.Permutation(seq(len(routedProtos))).Draw(t, "order")[:n]
+	perm := rapid.Permutation(seq(len(routedProtos))).Draw(t, "order")
+	rc.Order = perm[:n]
+	// protocols without a route of their own serve as alternatives in OR'ed matcher sets of the routes
+	spare := perm[n:]
+	for i := 0; i < n; i++ {
+		alt := -1
+		if len(spare) > 0 && rapid.IntRange(0, 2).Draw(t, "orSet") == 0 {
+			alt, spare = spare[0], spare[1:]
+		}
+		rc.Alt = append(rc.Alt, alt)
+		rc.AltFirst = append(rc.AltFirst, rapid.Bool().Draw(t, "altFirst"))
+	}
 	rc.PreAt = -1
 	switch rapid.IntRange(0, 4).Draw(t, "pre") {
 	case 0:
@@ -109,7 +123,11 @@ func genRouted(t *rapid.T) routedCase {
 		rc.PreAt = rapid.IntRange(0, min(2, n-1)).Draw(t, "preAt")
 	}
 	// the message: mostly of a protocol that has a route behind the stream-changing one
-	p := routedProtos[rc.Order[rapid.IntRange(max(rc.PreAt, 0), n-1).Draw(t, "which")]]
+	wi := rapid.IntRange(max(rc.PreAt, 0), n-1).Draw(t, "which")
+	p := routedProtos[rc.Order[wi]]
+	if rc.Alt[wi] >= 0 && rapid.Bool().Draw(t, "viaAlternative") {
+		p = routedProtos[rc.Alt[wi]] // the message reaches its route through the alternative set
+	}
 	if rapid.IntRange(0, 7).Draw(t, "foreign") == 0 {
 		p = routedProtos[rapid.IntRange(0, len(routedProtos)-1).Draw(t, "foreignWhich")]
 	}
@@ -169,7 +187,16 @@ func (rc routedCase) routes() []rx.R {
 			}
 		}
 		p := routedProtos[pi]
-		out = append(out, rx.R{Match: []map[string]any{rx.M(p.name, json.RawMessage(p.cfg))}, Handle: []map[string]any{rx.H("verif_term", "id", p.name)}})
+		sets := []map[string]any{rx.M(p.name, json.RawMessage(p.cfg))}
+		if a := rc.Alt[i]; a >= 0 {
+			alt := rx.M(routedProtos[a].name, json.RawMessage(routedProtos[a].cfg))
+			if rc.AltFirst[i] {
+				sets = []map[string]any{alt, sets[0]}
+			} else {
+				sets = append(sets, alt)
+			}
+		}
+		out = append(out, rx.R{Match: sets, Handle: []map[string]any{rx.H("verif_term", "id", p.name)}})
 	}
 	return out
 }
@@ -235,10 +262,50 @@ func TestRoutedFragmentation(t *testing.T) {
 		rc := genRouted(rt)
 		stream := append(append([]byte(nil), rc.Header...), rc.Msg...)
 		// --- is the relation claimed for this case? ---
+		// the sets of a route, in the order they are listed: the route's verdict on a prefix is that of the first set that
+		// does not say no ("any error terminates matching", and asking for more data is reported as an error)
+		setsOf := map[string][]string{"proxy_protocol": {"proxy_protocol"}}
+		for i, pi := range rc.Order {
+			nm := routedProtos[pi].name
+			setsOf[nm] = []string{nm}
+			if a := rc.Alt[i]; a >= 0 {
+				if rc.AltFirst[i] {
+					setsOf[nm] = []string{routedProtos[a].name, nm}
+				} else {
+					setsOf[nm] = []string{nm, routedProtos[a].name}
+				}
+			}
+		}
+		altOf := map[string]bool{}
+		for nm, sets := range setsOf {
+			altOf[nm] = len(sets) > 1
+		}
+		matcherErrs := false
 		ever := func(name string, s []byte) (bool, bool) {
-			first, closed, pan := yesProfile(routedMatchers[name], s)
-			if pan {
-				return false, false
+			first, closed := -1, true
+			for p := 0; p <= len(s); p++ {
+				v := mx.No
+				for _, set := range setsOf[name] {
+					sv := mx.Eval(routedMatchers[set], s[:p], nil, false, false).V
+					if sv == mx.Panicked {
+						return false, false
+					}
+					if sv == mx.OtherErr || sv == mx.BufferFull {
+						// a matcher error ends matching for the connection (fail closed) if and when the router happens to
+						// evaluate that matcher on that prefix: which handler is reached then depends on the schedule, by design
+						matcherErrs = true
+					}
+					if sv != mx.No {
+						v = sv
+						break
+					}
+				}
+				if v == mx.Yes && first < 0 {
+					first = p
+				}
+				if first >= 0 && v != mx.Yes {
+					closed = false
+				}
 			}
 			return first >= 0, closed
 		}
@@ -279,6 +346,16 @@ func TestRoutedFragmentation(t *testing.T) {
 			}
 			winner = routedProtos[pi].name
 		}
+		if !matcherErrs {
+			// routes in front of the stream-changing one, and routes without a yes, also count
+			for _, pi := range rc.Order {
+				ever(routedProtos[pi].name, stream)
+			}
+		}
+		if matcherErrs {
+			hx.Excluded("C06/routed/some-matcher-reports-an-error-on-some-prefix")
+			return
+		}
 		// --- the relation ---
 		rl, err := rx.Routes(rx.BareCtx(), rc.routes())
 		if err != nil {
@@ -287,8 +364,16 @@ func TestRoutedFragmentation(t *testing.T) {
 		h := rx.Compile(rl, 5*time.Second, true)
 		whole := deliver(h, [][]byte{stream})
 		var names []string
-		for _, pi := range rc.Order {
-			names = append(names, routedProtos[pi].name)
+		for i, pi := range rc.Order {
+			nm := routedProtos[pi].name
+			if a := rc.Alt[i]; a >= 0 {
+				if rc.AltFirst[i] {
+					nm = "(" + routedProtos[a].name + "|" + nm + ")"
+				} else {
+					nm = "(" + nm + "|" + routedProtos[a].name + ")"
+				}
+			}
+			names = append(names, nm)
 		}
 		desc := fmt.Sprintf("routes=%v with %q inserted at %d; stream = %d-byte header + %d-byte %s message: %s", names, rc.Pre, rc.PreAt, len(rc.Header), len(rc.Msg), rc.From, hexs(stream))
 		if winner != "" && whole.reached != winner {
@@ -304,6 +389,9 @@ func TestRoutedFragmentation(t *testing.T) {
 			}
 		}
 		cl := []string{"C06/routed", "C06/routed/reaches/" + whole.reached}
+		if altOf[whole.reached] {
+			cl = append(cl, "C06/routed/reached-route-has-alternative-sets")
+		}
 		if winner == "" {
 			cl = append(cl, "C06/routed/no-matcher-says-yes/"+rc.From)
 		}
